@@ -10,6 +10,8 @@ source text of errors() (no pattern extraction): whatever way the checks are wri
   dup-own-bounds two sub-propositions with one id and one definition but different own bounds:  rejected
   same-child     a node that lists one id twice (equal bounds):            rejected
   cycle          a node whose child carries the node's own id:             rejected
+  cross-cycle    two sibling branches that refer to each other (B lists C's id, C lists B's id), and a ring of three: rejected
+  fixed-cycle    a cycle closed through a reference with fixed bounds (1,1) equal to the own bounds of the node: rejected
   tree           pairwise distinct ids, any bounds / thresholds / signs:   accepted
   shared         one sub-proposition object under two parents:             accepted
 
@@ -50,7 +52,8 @@ class ErrorsShapeH(Harness):
 
     def cases(self):
         out = [{"shape": "dup-leaf"}, {"shape": "tree"}, {"shape": "shared"}, {"shape": "same-child"}, {"shape": "cycle"},
-               {"shape": "dup-children"}, {"shape": "dup-own-bounds"}]
+               {"shape": "dup-children"}, {"shape": "dup-own-bounds"}, {"shape": "cross-cycle"}, {"shape": "ring3"},
+               {"shape": "fixed-cycle"}]
         for s1 in (1, -1):
             for s2 in (1, -1):
                 out.append({"shape": "dup-compound", "s1": s1, "s2": s2})
@@ -96,6 +99,22 @@ class ErrorsShapeH(Harness):
             b, _, _ = L("b", "b")
             C, _ = compound(c, repo, "C", [inner, b], 1, "C")
             T, _ = compound(c, repo, "T", [C], 1, "T")
+            st.update(top=T, accept=False, ids=None, n_occ=4)
+        elif sh == "cross-cycle":
+            B, _ = compound(c, repo, "B", [L("C", "rc")[0], L("x", "x")[0]], 1, "B")
+            C, _ = compound(c, repo, "C", [L("B", "rb")[0], L("y", "y")[0]], -1, "C")
+            T, _ = compound(c, repo, "T", [B, C], 1, "T")
+            st.update(top=T, accept=False, ids=None, n_occ=7)
+        elif sh == "ring3":
+            P, _ = compound(c, repo, "P", [L("R", "rr")[0], L("x", "x")[0]], 1, "P")
+            Q, _ = compound(c, repo, "Q", [L("P", "rp")[0], L("y", "y")[0]], 1, "Q")
+            R, _ = compound(c, repo, "R", [L("Q", "rq")[0], L("z", "z")[0]], -1, "R")
+            T, _ = compound(c, repo, "T", [P, Q, R], 1, "T")
+            st.update(top=T, accept=False, ids=None, n_occ=10)
+        elif sh == "fixed-cycle":
+            back = mk_variable(repo, "T", 1, 1)
+            C, _ = compound(c, repo, "C", [back, L("b", "b")[0]], 1, "C")
+            T, _ = compound(c, repo, "T", [C], 1, "T", own=(1, 1))
             st.update(top=T, accept=False, ids=None, n_occ=4)
         elif sh in ("dup-compound", "dup-children", "dup-own-bounds"):
             x, _, _ = L("x", "x"); y, _, _ = L("y", "y"); z, _, _ = L("z", "z"); u, _, _ = L("u", "u"); w, _, _ = L("w", "w")
@@ -167,6 +186,13 @@ class ErrorsShapeH(Harness):
             T = C("T", [L("a", "a1"), L("a", "a1"), L("b", "b")], 1, "T"); acc = False
         elif sh == "cycle":
             T = C("T", [C("C", [L("T", "t"), L("b", "b")], 1, "C")], 1, "T"); acc = False
+        elif sh == "cross-cycle":
+            T = C("T", [C("B", [L("C", "rc"), L("x", "x")], 1, "B"), C("C", [L("B", "rb"), L("y", "y")], -1, "C")], 1, "T"); acc = False
+        elif sh == "ring3":
+            T = C("T", [C("P", [L("R", "rr"), L("x", "x")], 1, "P"), C("Q", [L("P", "rp"), L("y", "y")], 1, "Q"),
+                        C("R", [L("Q", "rq"), L("z", "z")], -1, "R")], 1, "T"); acc = False
+        elif sh == "fixed-cycle":
+            T = C("T", [C("C", [puan.variable("T", (1, 1)), L("b", "b")], 1, "C")], 1, "T", own=(1, 1)); acc = False
         else:
             s1, s2 = case.get("s1", 1), case.get("s2", 1)
             x, y, z, v = L("x", "x"), L("y", "y"), L("z", "z"), L("v", "v")
